@@ -17,6 +17,7 @@ type Exec struct {
 	fmtParent    map[*FmtStr]*FmtStr
 	fmtOf        map[string]*FmtStr
 	posOf        map[string]FmtPos
+	guardedBy    map[string]string // heap key of a guarded field -> mutex key of its monitor
 	sharedOf     map[string]string // slice term -> condition under which its backing array extends into elements of the slice it was cut from
 	coverDone    map[*AtSpec]bool
 	cntDeclared  map[string]bool
